@@ -7,6 +7,7 @@ package refmqtt
 import (
 	"errors"
 	"fmt"
+	"strings"
 	"unicode/utf8"
 )
 
@@ -392,6 +393,9 @@ func parse(b []byte, lenient bool) (p *Packet, n int, err error) {
 			}
 			if p.WillMessage, e = r.bytes(); e != nil {
 				return fail(e)
+			}
+			if p.WillTopic == "" || strings.ContainsAny(p.WillTopic, "+#") {
+				return fail(bad("CONNECT will topic %q is not a topic name", p.WillTopic))
 			}
 		}
 		if p.HasUser {
